@@ -112,7 +112,11 @@ def handlePem (o : Op) : String :=
       | none => some true
     match der, dsaOk with
     | some der, some dsaOk =>
-      let i : PemIn := ⟨nb = 1, pt, proc, ie = 1, dec, der, dr = 1⟩
+      let iv (k : String) : Int := match o.hex? k with | some b => mpintVal b | none => 0
+      let pq : Int × Int := match (o.str "dsaparams").splitOn ":" with
+        | [p, q, _] => (match ofHex p, ofHex q with | some p, some q => (mpintVal p, mpintVal q) | _, _ => (0, 0))
+        | _ => (0, 0)
+      let i : PemIn := ⟨nb = 1, pt, proc, ie = 1, dec, der, dr = 1, pq.1, pq.2, iv "dsax", iv "dsay", iv "dsaexp"⟩
       let raw := match o.str "mode" with
         | "plain" => some (pemRawPlain i)
         | "pass" => some (pemRawPass i)
